@@ -167,6 +167,11 @@ def run(r):
     rep.floor("C17-OBJ", 1)
 
 
+def downsample_rule(r, pre=""):
+    from .C05 import downsample_rule as _ds
+    _ds(r, pre + "C17-DS")
+
+
 from ..selftest import V  # noqa: E402
 
 S = "pyrepseq/stats.py"
